@@ -58,8 +58,8 @@ func runC01(r *core.Run) {
 	defer addPacketOwner(r, "R01.21")
 	r.Rule("R01.22", "packets reach the transport through the queue: sendPacket is called by sendPackets, Close and NewChannel only", 3, false)
 	defer func() {
-	r.Rule("R01.23", "channel ids fit the 16-bit header field (R12.4)", 1, false)
-	defer idLimit(r, "R01.23")
+		r.Rule("R01.23", "channel ids fit the 16-bit header field (R12.4)", 1, false)
+		defer idLimit(r, "R01.23")
 		p := r.Prog
 		callersOf(r, "R01.22", p.Func("tds", "Channel", "sendPacket"), map[*ssa.Function]bool{p.Func("tds", "Channel", "sendPackets"): true, p.Func("tds", "Channel", "Close"): true, p.Func("tds", "Conn", "NewChannel"): true},
 			"queue flush / teardown / setup", "a packet built outside the transmit queue (NewPacket with its body cut to nil keeps Header.Length at the full size) goes out zero-padded, so the message carries a body of zeros that belongs to no package")
